@@ -29,6 +29,12 @@ def gapsOk : Bool → Layout → Prop
   | _, [] => True
   | first, (g, _) :: ws => (∀ c ∈ g, isBlank c) ∧ (first = true ∨ g ≠ []) ∧ gapsOk false ws
 
+instance gapsOk.dec : (first : Bool) → (gws : Layout) → Decidable (gapsOk first gws)
+  | _, [] => isTrue trivial
+  | first, (g, _) :: ws =>
+    have : Decidable (gapsOk false ws) := gapsOk.dec false ws
+    inferInstanceAs (Decidable ((∀ c ∈ g, isBlank c) ∧ (first = true ∨ g ≠ []) ∧ gapsOk false ws))
+
 /-- the longest blank prefix of a text is unique -/
 theorem blank_prefix_unique (a b x y : List Char) (h : a ++ x = b ++ y)
     (ha : ∀ c ∈ a, isBlank c) (hb : ∀ c ∈ b, isBlank c)
